@@ -91,7 +91,7 @@ fn main() {
     let mut events = 0u64;
     for idx in 0..runs {
         let mut r = Rnd(seed.wrapping_mul(0x9e3779b97f4a7c15).wrapping_add(idx));
-        let family = idx % 8;
+        let family = idx % 9;
         let basic = idx % 5 == 4;
         let thr = [1e-6, 1e-3, 1e-3, 0.5][r.below(4) as usize];
         let maxf = [1.0, 400.0, 400.0, 5000.0][r.below(4) as usize];
@@ -106,6 +106,10 @@ fn main() {
         let mut t: i128 = 1_700_000_000_000_000_000;
         let n = 20 + r.below(120);
         let base_off: f64 = [0.0, 1e-9, 999e-6, 1.001e-3, 1.0, 10.0, 1e9, -1e9, -10.0, -1e-3][r.below(10) as usize];
+        // family 8: identical sync and delay samples (offset 0 or tiny, one constant path delay) alternating at one event time: every
+        // difference the measurement noise estimator sees is the same number, and no time passes between updates
+        let base_off = if family == 8 { [0.0, 0.0, 1e-9][r.below(3) as usize] } else { base_off };
+        let const_delay = [0.0, 1e-6, 100e-6][r.below(3) as usize];
         let mut panicked = false;
         // the filter update timer can fire before the first measurement (a stale timer hitting a fresh filter): nothing may be commanded
         for _ in 0..r.below(3) {
@@ -133,7 +137,7 @@ fn main() {
         for k in 0..n {
             // event time
             let dt: i128 = match family {
-                1 => 0,                                                     // equal event times
+                1 | 8 => 0,                                                 // equal event times
                 2 => if k % 3 == 2 { -((r.below(2_000_000_000)) as i128) } else { 125_000_000 },   // running backwards now and then
                 _ => [125_000_000i128, 1_000_000_000, 1, 2_000_000_000][r.below(4) as usize],
             };
@@ -141,10 +145,10 @@ fn main() {
             // the local clock reads at least the event time (steps applied by the servo included)
             clk.now_ns = clk.now_ns.max(t as u128) + if dt > 0 { dt as u128 } else { 0 };
             let t = if family == 2 { t } else { clk.now_ns as i128 };
-            let noise = match family { 1 | 3 => 0.0, _ => (r.unit() - 0.5) * [0.0, 1e-9, 1e-6, 1e-4][r.below(4) as usize] };
+            let noise = match family { 1 | 3 | 8 => 0.0, _ => (r.unit() - 0.5) * [0.0, 1e-9, 1e-6, 1e-4][r.below(4) as usize] };
             let off = match family { 5 => [1e9, -1e9, 0.0, 1e-12, -1e-12][r.below(5) as usize], 7 => base_off * if k % 2 == 0 { 1.0 } else { -1.0 }, _ => base_off } + noise;
-            let delay = [1e-6, 100e-6, 0.0][r.below(3) as usize];
-            let kind = match family { 4 => k % 3, _ => r.below(3) };
+            let delay = if family == 8 { const_delay } else { [1e-6, 100e-6, 0.0][r.below(3) as usize] };
+            let kind = match family { 4 => k % 3, 8 => k % 2, _ => r.below(3) };
             let et = if family == 2 { vh::collab::time_from_bits((t as u128) << 32) } else { clk.now() };
             let m = match kind {
                 0 => Measurement { event_time: et, raw_sync_offset: Some(Duration::from_seconds(off + delay)), offset: Some(Duration::from_seconds(off)), ..Default::default() },
@@ -205,7 +209,7 @@ fn main() {
             }
             if let Some((key, what)) = bad {
                 // signature of the recorded finding: zero-variance / equal-event-time sample sets
-                let degenerate = family == 1 || family == 3;
+                let degenerate = family == 1 || family == 3 || family == 8;
                 let key = if degenerate && (key == "C13/panic" || key == "C13/nonfinite") { format!("{}-degenerate", key) } else { key };
                 *counts.entry(key.clone()).or_default() += 1;
                 if viol.iter().filter(|v| v["key"] == key.as_str()).count() < 2 {
@@ -234,7 +238,7 @@ fn main() {
                           else if new.len() > 1 { Some(format!("demobilize issued {} commands", new.len())) }
                           else if new.iter().any(|(c, v)| *c != 'f' || !v.is_finite() || v.abs() > maxf * (1.0 + 1e-12)) { Some(format!("final command {:?} out of bounds", new)) } else { None };
                 if let Some(what) = bad {
-                    let key = if family == 1 || family == 3 { "C13/demob-degenerate" } else { "C13/demob" };
+                    let key = if family == 1 || family == 3 || family == 8 { "C13/demob-degenerate" } else { "C13/demob" };
                     *counts.entry(key.into()).or_default() += 1;
                     if viol.iter().filter(|v| v["key"] == key).count() < 2 {
                         let path = format!("{}/servo-{}.json", dir, viol.len());
